@@ -71,7 +71,7 @@ AlgoStencil(a, d, op, from, to, rule, fill) ==
         LAMBDA idx : Comb(op, Get(p, idx), Get(p, [idx EXCEPT ![d] = idx[d] + 1])))
 
 RECURSIVE PrefixSum(_, _, _, _)
-PrefixSum(a, idx, d, i) == IF i < 0 THEN 0 ELSE Get(a, [idx EXCEPT ![d] = i]) + PrefixSum(a, idx, d, i - 1)
+PrefixSum(a, idx, d, i) == IF i < 0 THEN 0 ELSE Plus(Get(a, [idx EXCEPT ![d] = i]), PrefixSum(a, idx, d, i - 1))
 RunSum(a, d) == Build(a.shape, LAMBDA idx : PrefixSum(a, idx, d, idx[d]))
 \* <<drop last?, pad lower>> per shift
 CumTable(from, to) ==
